@@ -150,12 +150,37 @@ def gen_scenario(rng, star=None):
             "    %s = %s(%s %s 10, %s)" % (g2, callee, q, op, q),
             "    return %s(True, %s %s 10)" % (callee, q, op),
         ])
+        # uses before bindings: a function reading a global assigned further down and calling a helper defined later;
+        # a try body with a comment in column 0 and a blank line (the repair looks for the end of the body)
+        late, early, aux = "late", "early", "aux"
+        sections.append([
+            "def %s():" % early,
+            "    return %s + %s(%s)" % (late, aux, g1),
+        ])
+        tail = [
+            "%s = %d" % (late, rng.randint(0, 9)),
+            "def %s(%s):" % (aux, p1),
+            "    try:",
+            "        %s = %s" % (loc, p1),
+            "# %s = 0" % loc,
+            "",
+            "        %s = %s + %s" % (p2, loc, late),
+            "    except %s:" % rng.choice(["Exception", "ValueError"]),
+            "        %s = %s" % (p2, p1),
+            "    return %s" % p2,
+        ]
         rng.shuffle(sections)
         for sec in sections:
             L.extend(sec)
             noise()
             if rng.random() < 0.6 and imported:
                 L.append("%s = %s" % (rng.choice([t1, t2, g2]), rng.choice(imported)))
+        L.extend(tail)
+        # the class itself as receiver (the dotted-completion model covers receivers that are class statements)
+        L.append("%s = %s.%s" % (g2, cls, a1))
+        L.append("%s = %s . %s(%s, 0)" % (t1, cls, m1, g1))
+        L.append("def %s():" % "peek")
+        L.append("    return %s.%s, %s.%s" % (cls, a2, cls, m2))
         L.append("%s = %s()" % (inst, cls))
         L.append("%s = %s %s %s" % (t1, inst, rng.choice([". ", " .", " . ", " .  "]), a1))
         L.append("%s = (%s." % (t2, inst))
